@@ -2,11 +2,9 @@ import Avfs.FS.Step
 /-
   Model of vfs/orefafs (orefafs.go, orefafs_internal.go, orefafs_file.go) emulating Linux: one node type, a flat index
   `nodes : absolute path ↦ node` next to the children maps, no permission checks, no symbolic links, no Sub.
-  Transliteration, function by function, of what the code DOES (its defects included): the root is registered under
-  the key "" (addressing it as "/" misses it), MkdirAll links the missing chain deepest first, Rename and Link do not
-  look at the kind of the new parent, children maps are nil until the first addChild (a Rename into such a directory
-  panics), Read / Write slice the content at the handle offset without a bound check.
-  `.panic` / `.hang` are produced exactly where the Go code panics / locks a mutex it already holds.
+  Transliteration, function by function, of what the code DOES: the root is registered under the key "" (the parent
+  SplitAbs gives for "/x") and under "/", children maps are nil until the first addChild.
+  `.panic` / `.hang` are produced exactly where the Go code would panic / lock a mutex it already holds.
 -/
 namespace Avfs.Orefa
 open Avfs.Path Avfs.FS
@@ -48,6 +46,7 @@ structure OState where
   store : OStore
   view : OView
   handles : List (Nat × Handle)
+  habs : List (Nat × Bytes)        -- OrefaFile.absPath: the absolute path of each handle when it was opened
   nextHandle : Nat
   deriving DecidableEq, Repr
 
@@ -86,11 +85,15 @@ def createNode (s : OStore) (v : OView) (parent : Ino) (absPath name : Bytes) (i
   let s1 : OStore := { s with heap := AL.insert i nd s.heap, next := s.next + 1, lastId := id }
   ((addChildO s1 parent name i).bind absPath i, i)
 
-/-- node.remove(): children = nil, nlink--, the content is dropped when the count reaches 0 -/
+/-- node.remove(): children = nil, nlink--; the content is kept (an open handle still reads and writes it) -/
 def removeNode (s : OStore) (i : Ino) : OStore :=
   match s.get i with
-  | some n => s.set i { n with children := none, nlink := n.nlink - 1, data := if n.nlink - 1 == 0 then [] else n.data }
+  | some n => s.set i { n with children := none, nlink := n.nlink - 1 }
   | none => s
+
+/-- node.setOwner: a uid or gid of -1 leaves that value unchanged -/
+def setOwnerO (n : ONode) (uid gid : Int) : ONode :=
+  { n with uid := if uid == -1 then n.uid else uid, gid := if gid == -1 then n.gid else gid }
 
 /-- fillStatFrom -/
 def fillStatO (s : OStore) (i : Ino) (name : Bytes) : Option Info :=
@@ -142,8 +145,8 @@ def missingChain (s : OStore) : Nat → Bytes → List Bytes → Chain
       | none => .panic
       | some (d, _) => missingChain s fuel d (acc ++ [dir])
 
-/-- MkdirAll: `for _, absPath = range ds { parent = createDir(parent, absPath, fileName, perm) }` walks `ds` in the
-    order it was collected (deepest first), so each shallower directory becomes a CHILD of the deeper one -/
+/-- MkdirAll: `for i := len(ds) - 1; i >= 0; i-- { parent = createDir(parent, ds[i], fileName, perm) }` walks `ds`
+    (collected deepest first) backwards: the chain is created from the existing ancestor downwards -/
 def mkdirAll (s : OStore) (v : OView) (path : Bytes) (perm : Nat) : OStore × Out :=
   let absPath := absOf v path
   match s.at absPath with
@@ -153,7 +156,7 @@ def mkdirAll (s : OStore) (v : OView) (path : Bytes) (perm : Nat) : OStore × Ou
     | .panic => (s, .panic)
     | .notDir => (s, .err .ENOTDIR)
     | .found ds parent =>
-      let (s', _) := ds.foldl (fun (acc : OStore × Ino) p =>
+      let (s', _) := ds.reverse.foldl (fun (acc : OStore × Ino) p =>
         match splitAbsO p with
         | some (_, fileName) => createNode acc.1 v acc.2 p fileName true perm
         | none => acc) (s, parent)
@@ -167,6 +170,7 @@ inductive OpenRes
 
 /-- OpenFile -/
 def openFile (s : OStore) (v : OView) (name : Bytes) (flag perm : Nat) : OStore × OpenRes :=
+  if name.isEmpty then (s, .err .ENOENT) else
   let om := toOpenMode flag
   let absPath := absOf v name
   let mk (nd : Ino) (pos : Nat) : Handle :=
@@ -192,10 +196,8 @@ def openFile (s : OStore) (v : OView) (name : Bytes) (flag perm : Nat) : OStore 
           if om &&& omWrite != 0 then (s, .err .EISDIR) else (s, .ok (mk c 0))
         else
           if om &&& omExcl != 0 then (s, .err .EEXIST) else
-          let d := if om &&& omTrunc != 0 then [] else n.data
-          let s1 := if om &&& omTrunc != 0 then s.set c { n with data := d } else s
-          -- O_APPEND: the offset is set to the size ONCE, here
-          (s1, .ok (mk c (if om &&& omAppend != 0 then d.length else 0)))
+          let s1 := if om &&& omTrunc != 0 then s.set c { n with data := [] } else s
+          (s1, .ok (mk c 0))
 
 /-- stat (Stat, Lstat) -/
 def statO (s : OStore) (v : OView) (path : Bytes) : Out :=
@@ -228,6 +230,7 @@ def setAttr (s : OStore) (v : OView) (name : Bytes) (f : ONode → ONode) : OSto
 
 /-- Truncate (the modification time is not touched) -/
 def truncate (s : OStore) (v : OView) (name : Bytes) (size : Int) : OStore × Out :=
+  if size < 0 then (s, .err .EINVAL) else       -- before the path is looked at
   match s.at (absOf v name) with
   | none => (s, .err .ENOENT)
   | some c =>
@@ -235,10 +238,9 @@ def truncate (s : OStore) (v : OView) (name : Bytes) (size : Int) : OStore × Ou
     | none => (s, .panic)
     | some n =>
       if n.isDir then (s, .err .EISDIR) else
-      if size < 0 then (s, .err .EINVAL) else
       (s.set c { n with data := truncData n.data size.toNat }, .ok .unit)
 
-/-- Remove: parent.mu then child.mu are locked (the same node twice: self-deadlock) -/
+/-- Remove: the root (the only node that is its own parent in the index) can't be removed -/
 def remove (s : OStore) (v : OView) (name : Bytes) : OStore × Out :=
   let absPath := absOf v name
   match splitAbsO absPath with
@@ -246,7 +248,7 @@ def remove (s : OStore) (v : OView) (name : Bytes) : OStore × Out :=
   | some (dirName, fileName) =>
     match s.at absPath, s.at dirName with
     | some c, some p =>
-      if c == p then (s, .hang) else
+      if c == p then (s, .err .EINVAL) else
       match s.get c with
       | none => (s, .panic)
       | some n =>
@@ -256,7 +258,7 @@ def remove (s : OStore) (v : OView) (name : Bytes) : OStore × Out :=
 
 /-- removeAll(absPath, node): the children MAP of a directory is followed, the index entries deleted are those of
     the paths composed on the way. `none`: the recursion does not end (the fuel, one more than the number of nodes, is
-    only exhausted when the children maps form a cycle — MkdirAll and Rename can build one) -/
+    only exhausted when the children maps form a cycle) -/
 def removeAllRec : Nat → OStore → Bytes → Ino → Option OStore
   | 0, _, _, _ => none
   | fuel + 1, s, absPath, i =>
@@ -271,8 +273,8 @@ def removeAllRec : Nat → OStore → Bytes → Ino → Option OStore
       | none => some s
     s1.map fun s1 => (removeNode s1 i).unbind absPath
 
-/-- RemoveAll: a directory is released by removeAll AND by `child.remove()` (its link count goes down twice);
-    on a cyclic children graph removeAll recurses for ever (`.hang`; in Go: until the stack limit kills the process) -/
+/-- RemoveAll: the node and everything below it are released (once) by removeAll, then the entry is deleted from the
+    parent; on a cyclic children graph removeAll would recurse for ever (`.hang`; no call builds a cycle any more) -/
 def removeAll (s : OStore) (v : OView) (path : Bytes) : OStore × Out :=
   if path.isEmpty then (s, .ok .unit) else
   let absPath := absOf v path
@@ -281,12 +283,14 @@ def removeAll (s : OStore) (v : OView) (path : Bytes) : OStore × Out :=
   | some (dirName, fileName) =>
     match s.at absPath, s.at dirName with
     | some c, some p =>
-      match (if isDirAt s c then removeAllRec (s.next + 1) s absPath c else some s) with
+      if c == p then (s, .err .EINVAL) else       -- the root can't be removed
+      match removeAllRec (s.next + 1) s absPath c with
       | none => (s, .hang)
-      | some s1 => ((delChild (removeNode s1 c) p fileName).unbind absPath, .ok .unit)
+      | some s1 => (delChild s1 p fileName, .ok .unit)
     | _, _ => (s, .ok .unit)
 
-/-- Link: both nodes are locked BEFORE the kind of the old one is looked at; the new parent may be a file -/
+/-- Link: the new parent must be a directory (ENOTDIR) and the old node a file (EPERM); both are checked before the
+    two nodes are locked (a file and a directory: never the same node) -/
 def link (s : OStore) (v : OView) (o n : Bytes) : OStore × Out :=
   let oAbs := absOf v o
   let nAbs := absOf v n
@@ -299,7 +303,7 @@ def link (s : OStore) (v : OView) (o n : Bytes) : OStore × Out :=
       match s.at nDir with
       | none => (s, .err .ENOENT)
       | some np =>
-        if oc == np then (s, .hang) else
+        if !isDirAt s np then (s, .err .ENOTDIR) else
         if isDirAt s oc then (s, .err .EPERM) else
         if (s.at nAbs).isSome then (s, .err .EEXIST) else
         let s1 := addChildO (s.bind nAbs oc) np nFile oc
@@ -307,9 +311,9 @@ def link (s : OStore) (v : OView) (o n : Bytes) : OStore × Out :=
         | some on => (s1.set oc { on with nlink := on.nlink + 1 }, .ok .unit)
         | none => (s, .panic)
 
-/-- the index rewrite of a directory rename: every key below the old path moves below the new one (one pass over the
-    keys present before the loop; when the new path is itself below the old one the Go loop also meets, or not, the
-    keys it inserts: map iteration order, not modelled) -/
+/-- the index rewrite of a directory rename: every key below the old path moves below the new one (the new path is
+    never below the old one, so the keys the Go loop inserts are not candidates of the loop: its result does not depend
+    on the map iteration order) -/
 def reindex (idx : List (Bytes × Ino)) (oAbs nAbs : Bytes) : List (Bytes × Ino) :=
   let oRoot := oAbs ++ [SL]
   (alKeys idx).foldl (fun acc k =>
@@ -319,28 +323,32 @@ def reindex (idx : List (Bytes × Ino)) (oAbs nAbs : Bytes) : List (Bytes × Ino
       | none => acc
     else acc) idx
 
-/-- Rename: `nParent.children[nFileName] = oChild` is an assignment to an entry of a nil map when the new parent never
-    had a child (or is a file) -/
+/-- Rename: the old path must exist (also when both paths are the same), the new parent must be a directory (ENOTDIR),
+    a directory is not moved below itself (EINVAL), a replaced file is released; the entry is added with addChild (which
+    makes the map) -/
 def rename (s : OStore) (v : OView) (o n : Bytes) : OStore × Out :=
   let oAbs := absOf v o
   let nAbs := absOf v n
-  if oAbs == nAbs then (s, .ok .unit) else
   match splitAbsO oAbs, splitAbsO nAbs with
   | some (oDir, oFile), some (nDir, nFile) =>
     match s.at oAbs, s.at oDir, s.at nDir with
     | some oc, some op, some np =>
+      if oAbs == nAbs then (s, .ok .unit) else
+      if !isDirAt s np then (s, .err .ENOTDIR) else
       let nc := s.at nAbs
       let ocDir := isDirAt s oc
+      -- the root is not moved; a directory is not moved into itself or below itself
+      if oc == op || (ocDir && (oAbs ++ [SL]).isPrefixOf nAbs) then (s, .err .EINVAL) else
       if (ocDir && nc.isSome) || (!ocDir && (match nc with | some c => isDirAt s c | none => false)) then (s, .err .EEXIST) else
-      match s.get np with
-      | none => (s, .panic)
-      | some npn =>
-        if npn.children.isNone then (s, .panic) else
-        let s1 := addChildO s np nFile oc
-        let s2 := delChild s1 op oFile
-        let s3 := (s2.bind nAbs oc).unbind oAbs
-        let s4 := if ocDir then { s3 with index := reindex s3.index oAbs nAbs } else s3
-        (s4, .ok .unit)
+      -- old and new are hard links to the same file: nothing to do
+      if nc == some oc then (s, .ok .unit) else
+      -- the replaced file loses this name
+      let s0 := match nc with | some c => removeNode s c | none => s
+      let s1 := addChildO s0 np nFile oc
+      let s2 := delChild s1 op oFile
+      let s3 := (s2.bind nAbs oc).unbind oAbs
+      let s4 := if ocDir then { s3 with index := reindex s3.index oAbs nAbs } else s3
+      (s4, .ok .unit)
     | _, _, _ => (s, .err .ENOENT)
   | _, _ => (s, .panic)
 
@@ -354,11 +362,9 @@ def dirEntriesO (s : OStore) (n : ONode) : Option (List Info) :=
 /-- node.dirNames() -/
 def dirNamesO (n : ONode) : Option (List Bytes) := if n.nkids == 0 then none else some n.names
 
-/-- the methods of OrefaFile; differences with MemFile: Read / Write slice `nd.data[f.at:]` (panic beyond the end),
-    a Read that copies nothing is io.EOF whatever the buffer length, Write ignores O_APPEND, WriteAt extends the file
-    for an empty buffer, Stat splits the name given to Open with SplitAbs (panic on a name without separator), Chdir
-    stores that name as it is, Chmod / Chown check nothing -/
-def fileStep (s : OStore) (v : OView) (h : Handle) (op : FOp) : OStore × OView × Handle × Out :=
+/-- the methods of OrefaFile; differences with MemFile: Chdir stores the absolute path the file had when it was opened
+    (`ap`), Chmod / Chown check nothing -/
+def fileStep (s : OStore) (v : OView) (h : Handle) (ap : Bytes) (op : FOp) : OStore × OView × Handle × Out :=
   let closedErr : Err := match op with
     | .stat | .readDir _ | .readdirnames _ => .fileClosing
     | _ => .closed
@@ -380,27 +386,33 @@ def fileStep (s : OStore) (v : OView) (h : Handle) (op : FOp) : OStore × OView 
   | .read k =>
     if n.isDir then (s, v, h, .err .EISDIR) else
     if h.om &&& omRead == 0 then (s, v, h, .err .EBADF) else
-    if h.pos < 0 || h.pos.toNat > n.data.length then (s, v, h, .panic) else
-    let bs := (n.data.drop h.pos.toNat).take k
-    if bs.isEmpty then (s, v, h, .errN 0 [] .eof)
+    if h.pos < 0 then (s, v, h, .panic) else
+    let bs := (n.data.drop h.pos.toNat).take k      -- nothing is copied at or beyond the end
+    if bs.isEmpty && k != 0 then (s, v, h, .errN 0 [] .eof)
     else (s, v, { h with pos := h.pos + bs.length }, .ok (.num bs.length bs))
   | .readAt k off =>
     if n.isDir then (s, v, h, .err .EISDIR) else
     if off < 0 then (s, v, h, .err .negOffset) else
     if h.om &&& omRead == 0 then (s, v, h, .err .EBADF) else
+    if k == 0 then (s, v, h, .ok (.num 0 [])) else
     if off.toNat > n.data.length then (s, v, h, .errN 0 [] .eof) else
     let bs := (n.data.drop off.toNat).take k
     if bs.length < k then (s, v, h, .errN bs.length bs .eof) else (s, v, h, .ok (.num bs.length bs))
   | .write b =>
     if n.isDir then (s, v, h, .err .EBADF) else
     if h.om &&& omWrite == 0 then (s, v, h, .err .EBADF) else
-    if h.pos < 0 || h.pos.toNat > n.data.length then (s, v, h, .panic) else
-    let pos := h.pos.toNat
-    let d' := n.data.take pos ++ b ++ n.data.drop (pos + b.length)
-    (s.set i { n with data := d', mtime := none }, v, { h with pos := h.pos + b.length }, .ok (.num b.length []))
+    if b.isEmpty then (s, v, h, .ok (.num 0 [])) else
+    if h.pos < 0 then (s, v, h, .panic) else
+    -- O_APPEND: every write lands at the current end of the file
+    let pos := if h.om &&& omAppend != 0 then n.data.length else h.pos.toNat
+    -- an offset beyond the end: the gap is filled with zeros
+    let d1 := if pos > n.data.length then n.data ++ List.replicate (pos - n.data.length) 0 else n.data
+    let d' := d1.take pos ++ b ++ d1.drop (pos + b.length)
+    (s.set i { n with data := d', mtime := none }, v, { h with pos := (pos + b.length : Nat) }, .ok (.num b.length []))
   | .writeAt b off =>
     if n.isDir then (s, v, h, .err .EBADF) else
     if h.om &&& omWrite == 0 then (s, v, h, .err .EBADF) else
+    if b.isEmpty then (s, v, h, .ok (.num 0 [])) else
     let pos := off.toNat
     let d1 := if pos + b.length > n.data.length then n.data ++ List.replicate (pos + b.length - n.data.length) 0 else n.data
     let d' := d1.take pos ++ b ++ d1.drop (pos + b.length)
@@ -423,17 +435,14 @@ def fileStep (s : OStore) (v : OView) (h : Handle) (op : FOp) : OStore × OView 
     if size < 0 then (s, v, h, .err .EINVAL) else
     (s.set i { n with data := truncData n.data size.toNat, mtime := none }, v, h, .ok .unit)
   | .stat =>
-    match splitAbsO h.name with
+    match fillStatO s i (base .linux h.name) with
+    | some inf => (s, v, h, .ok (.info inf))
     | none => (s, v, h, .panic)
-    | some (_, name) =>
-      match fillStatO s i name with
-      | some inf => (s, v, h, .ok (.info inf))
-      | none => (s, v, h, .panic)
   | .sync => (s, v, h, .ok .unit)
   | .chmod mode => (s.set i { n with perm := mode &&& modeMask }, v, h, .ok .unit)
-  | .chown uid gid => (s.set i { n with uid := uid, gid := gid }, v, h, .ok .unit)
+  | .chown uid gid => (s.set i (setOwnerO n uid gid), v, h, .ok .unit)
   | .chdir =>
-    if !n.isDir then (s, v, h, .err .ENOTDIR) else (s, { v with cwd := h.name }, h, .ok .unit)
+    if !n.isDir then (s, v, h, .err .ENOTDIR) else (s, { v with cwd := ap }, h, .ok .unit)
   | .close => (s, v, h, .panic)       -- handled above
   | .readDir k =>
     if !n.isDir then (s, v, h, .err .ENOTDIR) else
@@ -464,12 +473,13 @@ def fileStep (s : OStore) (v : OView) (h : Handle) (op : FOp) : OStore × OView 
 
 def withStore (st : OState) (r : OStore × Out) : OState × Out := ({ st with store := r.1 }, r.2)
 
-def registerHandle (st : OState) (s : OStore) (r : OpenRes) : OState × Out :=
+def registerHandle (st : OState) (s : OStore) (r : OpenRes) (ap : Bytes) : OState × Out :=
   match r with
   | .panic => (st, .panic)
   | .err e => ({ st with store := s }, .err e)
   | .ok h =>
-    ({ st with store := s, handles := AL.insert st.nextHandle h st.handles, nextHandle := st.nextHandle + 1 },
+    ({ st with store := s, handles := AL.insert st.nextHandle h st.handles,
+               habs := AL.insert st.nextHandle ap st.habs, nextHandle := st.nextHandle + 1 },
       .ok (.handle st.nextHandle))
 
 /-- avfs.ReadFile: Open, f.Stat() (its error is ignored, its panic is not), Read until io.EOF -/
@@ -478,10 +488,10 @@ def readFile (s : OStore) (v : OView) (name : Bytes) : Out :=
   | (_, .panic) => .panic
   | (_, .err e) => .err e
   | (s1, .ok h) =>
-    match (fileStep s1 v h .stat).2.2.2 with
+    match (fileStep s1 v h (absOf v name) .stat).2.2.2 with
     | .panic => .panic
     | _ =>
-      match (fileStep s1 v h (.read 512)).2.2.2 with
+      match (fileStep s1 v h (absOf v name) (.read 512)).2.2.2 with
       | .err e => .err e
       | .panic => .panic
       | _ =>
@@ -494,7 +504,7 @@ def readDir (s : OStore) (v : OView) (name : Bytes) : Out :=
   match openFile s v name 0 0 with
   | (_, .panic) => .panic
   | (_, .err e) => .err e
-  | (s1, .ok h) => (fileStep s1 v h (.readDir (-1))).2.2.2
+  | (s1, .ok h) => (fileStep s1 v h (absOf v name) (.readDir (-1))).2.2.2
 
 def step (st : OState) (c : Call) : OState × Out :=
   let s := st.store
@@ -502,8 +512,8 @@ def step (st : OState) (c : Call) : OState × Out :=
   match c with
   | .mkdir p perm => withStore st (mkdir s v p perm)
   | .mkdirAll p perm => withStore st (mkdirAll s v p perm)
-  | .openFile p flag perm => let (s1, r) := openFile s v p flag perm; registerHandle st s1 r
-  | .create p => let (s1, r) := openFile s v p oRDWR_CREATE_TRUNC 0o666; registerHandle st s1 r
+  | .openFile p flag perm => let (s1, r) := openFile s v p flag perm; registerHandle st s1 r (absOf v p)
+  | .create p => let (s1, r) := openFile s v p oRDWR_CREATE_TRUNC 0o666; registerHandle st s1 r (absOf v p)
   | .remove p => withStore st (remove s v p)
   | .removeAll p => withStore st (removeAll s v p)
   | .rename o n => withStore st (rename s v o n)
@@ -511,8 +521,8 @@ def step (st : OState) (c : Call) : OState × Out :=
   | .symlink _ _ => (st, .err .EACCES)
   | .truncate p sz => withStore st (truncate s v p sz)
   | .chmod p m => withStore st (setAttr s v p fun n => { n with perm := m &&& modeMask })
-  | .chown p u g => withStore st (setAttr s v p fun n => { n with uid := u, gid := g })
-  | .lchown p u g => withStore st (setAttr s v p fun n => { n with uid := u, gid := g })
+  | .chown p u g => withStore st (setAttr s v p fun n => setOwnerO n u g)
+  | .lchown p u g => withStore st (setAttr s v p fun n => setOwnerO n u g)
   | .chtimes p t => withStore st (setAttr s v p fun n => { n with mtime := some t })
   | .chdir p => let (v1, o) := chdir s v p; ({ st with view := v1 }, o)
   | .stat p => (st, statO s v p)
@@ -527,7 +537,7 @@ def step (st : OState) (c : Call) : OState × Out :=
     | (_, .panic) => (st, .panic)
     | (s1, .err e) => ({ st with store := s1 }, .err e)
     | (s1, .ok h) =>
-      let (s2, _, _, o) := fileStep s1 v h (.write data)
+      let (s2, _, _, o) := fileStep s1 v h (absOf v p) (.write data)
       ({ st with store := s2 }, match o with | .ok _ => .ok .unit | o => o)
   | .mkdirTemp dir pat rnd =>
     let dir := if dir.isEmpty then tempDir else dir
@@ -543,8 +553,9 @@ def step (st : OState) (c : Call) : OState × Out :=
     match prefixAndSuffix pat with
     | none => (st, .err .patternSep)
     | some (pre, suf) =>
-      let (s1, r) := openFile s v (joinPath dir pre ++ rnd ++ suf) oRDWR_CREATE_EXCL 0o600
-      registerHandle st s1 r
+      let name := joinPath dir pre ++ rnd ++ suf
+      let (s1, r) := openFile s v name oRDWR_CREATE_EXCL 0o600
+      registerHandle st s1 r (absOf v name)
   | .sub _ => (st, .err .EACCES)
   | .setUser uid gid _ => ({ st with view := { v with uid := uid, gid := gid } }, .ok .unit)
   | .setUMask m => ({ st with view := { v with umask := m } }, .ok .unit)
@@ -552,18 +563,19 @@ def step (st : OState) (c : Call) : OState × Out :=
     match AL.lookup hid st.handles with
     | none => (st, .err .invalid)
     | some h =>
-      let (s1, v1, h1, o) := fileStep s v h op
+      let (s1, v1, h1, o) := fileStep s v h ((AL.lookup hid st.habs).getD []) op
       ({ st with store := s1, view := v1, handles := AL.insert hid h1 (AL.erase hid st.handles) }, o)
 
 /-- the uid and gid of avfs.NotImplementedIdm.AdminUser(): math.MaxInt -/
 def dummyId : Int := 9223372036854775807
 
-/-- the state `orefafs.New()` builds on Linux: the root node registered under "" (uid 0, gid 0, nlink 0, nil children),
+/-- the state `orefafs.New()` builds on Linux: the root node registered under "" (the parent SplitAbs gives for "/x") and
+    under "/" (uid 0, gid 0, nlink 0, nil children),
     /home (0700), /root (0700), /tmp (0777) made by MkdirAll + Chmod with umask 0, current directory "/", umask 022 -/
 def initState (uid gid : Int) : OState :=
   let root : ONode := { isDir := true, perm := 0o755, uid := 0, gid := 0, mtime := none, nlink := 0, id := 0, data := [], children := none }
-  let st : OState := { store := { heap := [(0, root)], index := [([], 0)], next := 1, lastId := 0 },
-                       view := { cwd := [SL], uid := uid, gid := gid, umask := 0 }, handles := [], nextHandle := 0 }
+  let st : OState := { store := { heap := [(0, root)], index := [([], 0), ([SL], 0)], next := 1, lastId := 0 },
+                       view := { cwd := [SL], uid := uid, gid := gid, umask := 0 }, handles := [], habs := [], nextHandle := 0 }
   let mk (st : OState) (p : Bytes) (perm : Nat) : OState :=
     (step (step st (.mkdirAll p perm)).1 (.chmod p perm)).1
   let st := mk (mk (mk st [47, 104, 111, 109, 101] 0o700) [47, 114, 111, 111, 116] 0o700) [47, 116, 109, 112] 0o777
